@@ -20,7 +20,6 @@ import (
 	"fmt"
 	"io"
 	"log/slog"
-	"math"
 	"sync/atomic"
 	"time"
 
@@ -200,18 +199,30 @@ func now() uint64 {
 	return uint64(time.Now().UnixMilli())
 }
 
-func (d *db) applyWriteRequest(b *proto.WriteRequest, batch WriteBatch, commitOffset int64, timestamp uint64, updateOperationCallback UpdateOperationCallback) (*notifications, *proto.WriteResponse, error) {
+// sequenceUpdate is a key that was generated from a sequence by one of the operations of a batch.
+type sequenceUpdate struct {
+	prefixKey string
+	newKey    string
+}
+
+func (d *db) applyWriteRequest(b *proto.WriteRequest, batch WriteBatch, commitOffset int64, timestamp uint64, updateOperationCallback UpdateOperationCallback) (*notifications, *proto.WriteResponse, []sequenceUpdate, error) {
 	res := &proto.WriteResponse{}
 	var notifications *notifications
 	if d.notificationsEnabled {
 		notifications = newNotifications(d.shardId, commitOffset, timestamp)
 	}
 
+	var sequenceUpdates []sequenceUpdate
 	d.putCounter.Add(len(b.Puts))
 	for _, putReq := range b.Puts {
+		prefixKey := putReq.Key
 		pr, err := d.applyPut(batch, notifications, putReq, timestamp, updateOperationCallback, false)
 		if err != nil {
-			return nil, nil, err
+			return nil, nil, nil, err
+		}
+		if pr.Key != nil {
+			// A record was stored under a new key of the sequence
+			sequenceUpdates = append(sequenceUpdates, sequenceUpdate{prefixKey, *pr.Key})
 		}
 		res.Puts = append(res.Puts, pr)
 	}
@@ -220,7 +231,7 @@ func (d *db) applyWriteRequest(b *proto.WriteRequest, batch WriteBatch, commitOf
 	for _, delReq := range b.Deletes {
 		dr, err := d.applyDelete(batch, notifications, delReq, updateOperationCallback)
 		if err != nil {
-			return nil, nil, err
+			return nil, nil, nil, err
 		}
 
 		res.Deletes = append(res.Deletes, dr)
@@ -230,13 +241,13 @@ func (d *db) applyWriteRequest(b *proto.WriteRequest, batch WriteBatch, commitOf
 	for _, delRangeReq := range b.DeleteRanges {
 		dr, err := d.applyDeleteRange(batch, notifications, delRangeReq, updateOperationCallback)
 		if err != nil {
-			return nil, nil, err
+			return nil, nil, nil, err
 		}
 
 		res.DeleteRanges = append(res.DeleteRanges, dr)
 	}
 
-	return notifications, res, nil
+	return notifications, res, sequenceUpdates, nil
 }
 
 func (d *db) ProcessWrite(b *proto.WriteRequest, commitOffset int64, timestamp uint64, updateOperationCallback UpdateOperationCallback) (*proto.WriteResponse, error) {
@@ -244,7 +255,7 @@ func (d *db) ProcessWrite(b *proto.WriteRequest, commitOffset int64, timestamp u
 	defer timer.Done()
 
 	batch := d.kv.NewWriteBatch()
-	notifications, res, err := d.applyWriteRequest(b, batch, commitOffset, timestamp, updateOperationCallback)
+	notifications, res, sequenceUpdates, err := d.applyWriteRequest(b, batch, commitOffset, timestamp, updateOperationCallback)
 	if err != nil {
 		return nil, err
 	}
@@ -266,6 +277,11 @@ func (d *db) ProcessWrite(b *proto.WriteRequest, commitOffset int64, timestamp u
 
 	if err := batch.Commit(); err != nil {
 		return nil, err
+	}
+
+	// The waiters are only told about keys that are committed (and that they can read)
+	for _, su := range sequenceUpdates {
+		d.sequenceWaiterTracker.SequenceUpdated(su.prefixKey, su.newKey)
 	}
 
 	if notifications != nil {
@@ -309,19 +325,24 @@ func (d *db) Get(request *proto.GetRequest) (*proto.GetResponse, error) {
 func (d *db) GetSequenceUpdates(prefixKey string) (SequenceWaiter, error) {
 	d.getSequenceUpdatesCounter.Add(1)
 
-	sw := d.sequenceWaiterTracker.AddSequenceWaiter(prefixKey)
+	// The waiter starts from the current last key of the sequence. The updates are held back while it
+	// is being read: a key that gets committed in the meantime is delivered after this initial value
+	sw, err := d.sequenceWaiterTracker.AddSequenceWaiterFromLastKey(prefixKey, func() (string, error) {
+		it, err := d.kv.KeyRangeScanReverse(fmt.Sprintf("%s-%020d", prefixKey, 0),
+			fmt.Sprintf("%s-%020d", prefixKey, maxSequence))
+		if err != nil {
+			return "", err
+		}
 
-	// First read last key in the sequence
-	it, err := d.kv.KeyRangeScanReverse(fmt.Sprintf("%s-%020d", prefixKey, 0),
-		fmt.Sprintf("%s-%020d", prefixKey, math.MaxInt64))
+		lastKey := ""
+		if it.Valid() {
+			lastKey = it.Key()
+		}
+		return lastKey, it.Close()
+	})
 	if err != nil {
-		err = multierr.Append(err, sw.Close())
 		return nil, err
-	} else if it.Valid() {
-		sw.och.WriteLast(it.Key())
 	}
-
-	_ = it.Close()
 	return sw, nil
 }
 
@@ -506,10 +527,8 @@ func (d *db) applyPut(batch WriteBatch, notifications *notifications, putReq *pr
 	var err error
 	var newKey string
 	if len(putReq.GetSequenceKeyDelta()) > 0 {
-		prefixKey := putReq.Key
 		newKey, err = generateUniqueKeyFromSequences(batch, putReq)
 		putReq.Key = newKey
-		d.sequenceWaiterTracker.SequenceUpdated(prefixKey, newKey)
 	} else if !internal {
 		se, err = checkExpectedVersionId(batch, putReq.Key, putReq.ExpectedVersionId)
 	}
